@@ -266,6 +266,14 @@ func init() {
 		now := wt.Timestamp(atoi(tk[3]))
 		rel, _ := filepath.Rel(s.root, f.path)
 		base := s.serverURL()
+		rounds := 3
+		for _, t := range tk[4:] {
+			if strings.HasPrefix(t, "rounds=") {
+				// rounds=N: every goroutine walks N times over the requests that read the file itself only (view,
+				// view-raw: different archives and windows of one file, asked again and again by overlapping requests)
+				rounds = int(atoi(t[7:]))
+			}
+		}
 		if len(tk) > 4 && tk[4] == "rel" {
 			// a server in a process of its own, started in the case directory with a RELATIVE base (the first
 			// element of the file's name): "whispertool server -base data"
@@ -306,6 +314,15 @@ func init() {
 			"POST " + base + "/sum " + fmt.Sprintf("item=%s&pattern=%s&retention=0&from=%s&until=%s&now=%s", url.QueryEscape(dir), url.QueryEscape("*"), ts(now.Add(-6)), ts(now), ts(now)),
 			"POST " + base + "/view " + fmt.Sprintf("file=%s&retention=0&from=%s&until=%s&now=%s", url.QueryEscape(rel), ts(now.Add(-6)), ts(now), ts(now)),
 		}
+		if rounds != 3 {
+			urls = []string{urls[0], urls[1], urls[2],
+				fmt.Sprintf("%s/view?file=%s&retention=1&from=%s&until=%s&now=%s", base, url.QueryEscape(rel), ts(0), ts(now), ts(now)),
+				fmt.Sprintf("%s/view-raw?file=%s&retention=1", base, url.QueryEscape(rel)),
+				fmt.Sprintf("%s/view-raw?file=%s&retention=0", base, url.QueryEscape(rel)),
+				fmt.Sprintf("%s/view?file=%s&retention=0&from=%s&until=%s&now=%s", base, url.QueryEscape(rel), ts(now.Add(-700)), ts(now.Add(-300)), ts(now)),
+				fmt.Sprintf("%s/view?file=%s&retention=0&from=%s&until=%s&now=%s", base, url.QueryEscape(rel), ts(now.Add(-1500)), ts(now.Add(-900)), ts(now)),
+			}
+		}
 		get := func(u string) string {
 			var resp *http.Response
 			var err error
@@ -340,7 +357,7 @@ func init() {
 			wg.Add(1)
 			go func(g int) {
 				defer wg.Done()
-				for round := 0; round < 3; round++ {
+				for round := 0; round < rounds; round++ {
 					for j := range urls {
 						i := (j*(g%3+1) + g) % len(urls)
 						if get(urls[i]) != seq[i] {
